@@ -414,7 +414,7 @@ class Ctx:
                             "transitions": res["states"], "wall_s": round(res["wall"], 1), "ok": bool(ok),
                             "mode": "simulate" if simulate else "exhaustive", "constants": {"MaxB": maxb, "MaxUser": maxuser}})
         if not ok:
-            raise tlc.TlcError(f"model {name} did not pass:\n" + res["out"][-3000:])
+            raise tlc.TlcError(f"model {name} did not pass:\n" + tlc_digest(res["out"]) + "\n" + res["out"][-1500:])
         behs = replay_model.parse_behaviours(res["out"])
         # distinct behaviours, deterministic sample
         seen, uniq = set(), []
@@ -593,6 +593,34 @@ RULE_PROTOCOL = ("(a) JadeImpl explored by TLC on small scenarios, every interle
                  "documented recovery rounds; distinct = distinct (scenario, schedule) pairs")
 
 
+def delay_sweep_tasks(ctx, bases, cap=None):
+    """Systematic single-delay exploration of fault-free schedules: for every base schedule, every process and every one
+    of its operations j, hold that process at j while the others take d steps (d in 4, 9, 16)."""
+    base_tasks = [("fault", (b, ctx.seed * 31 + i, None, False)) for i, b in enumerate(bases)]
+    baselines = run_tasks(base_tasks)
+    tasks = []
+    for (kind_, (scn, seed, _, fm)), btr in zip(base_tasks, baselines):
+        bn = {e["pid"]: e["b"] for e in btr["ev"] if e["e"] == "proc"}
+        for pid, o in sorted(btr["ops"].items(), key=lambda x: int(x[0])):
+            if o["label"] not in ("try-submit-jobs", "run-jobs", "submit-jobs"):
+                continue
+            for j in range(len(o["ops"])):
+                for d in (4, 9, 16):
+                    tasks.append(("fault", (scn, seed, {"kind": "delay", "label": o["label"], "b": bn.get(int(pid), -1), "j": j, "d": d}, False)))
+    ctx.extra["delay_points_enumerated"] = ctx.extra.get("delay_points_enumerated", 0) + len(tasks)
+    if cap and len(tasks) > cap:
+        tasks = random.Random(ctx.seed + 3).sample(tasks, cap)
+    return baselines, tasks
+
+
+def delay_bases():
+    return [
+        families.scn("ABC", groups=[families.G(size=1, procs=1)], maxnodes=0),
+        families.scn("ABCD", blk={"C": ["A"], "D": ["B"]}, flag="D", rc={"B": 1}, groups=[families.G(size=2, tryadd=False, procs=2)], maxnodes=2),
+        families.scn("ABC", blk={"C": ["A", "B"]}, groups=[families.G(size=1, procs=1)], maxnodes=2),
+    ]
+
+
 def protocol_suite(ctx, n_quick=400, n_thorough=4000, gen_kw=None, salt=0):
     q = ctx.tier == "quick"
     fam = families.protocol_quick() if q else families.protocol_thorough()
@@ -601,6 +629,8 @@ def protocol_suite(ctx, n_quick=400, n_thorough=4000, gen_kw=None, salt=0):
     kw.update(gen_kw or {})
     tasks = [("random_hpc", (s, kw)) for s in seeds(ctx, n_quick if q else n_thorough, salt)]
     ctx.judge(run_tasks(tasks), "random HPC submissions")
+    bl, dt = delay_sweep_tasks(ctx, delay_bases(), cap=450 if q else None)
+    ctx.judge(bl + run_tasks(dt), "single-delay sweep of base schedules (each process held at each of its operations)")
 
 
 def check_C01(ctx):
@@ -626,6 +656,12 @@ def histories_extra(ctx):
     tasks += [("random_cancel", (s, dict(n_min=3, n_max=6, groups_max=1))) for s in seeds(ctx, 60 if q else 1000, 72)]
     tasks += small_resubmit_tasks(ctx, 300 if q else 4000)
     ctx.judge(run_tasks(tasks), "histories with resubmissions and cancellations")
+    if ctx.prop == "C09":
+        # rounds that end with an error raised outside the status files (quota exceeded while writing a batch's files):
+        # what the error path persists must still be consistent
+        bl, ft = sweep_tasks(ctx, fault_bases(ctx.tier), ["failwrite"], ("submit-jobs", "try-submit-jobs"), fault_mode=True,
+                             locklibs=("never",), seeds_per_base=2 if q else 5, detail_re=r"(config_batch_\d+\.json|_batch_\d+\.sh)$")
+        ctx.judge(bl + run_tasks(ft), "rounds aborted by a failed write of a batch file")
 
 
 def batching_inputs(n, maxest=2, capextra=2):
@@ -730,6 +766,14 @@ def small_model(ctx, name, module, consts, invariants, defs="", view="View", dum
     if not ok:
         raise tlc.TlcError(f"model {name} did not pass:\n" + res["out"][-6000:])
     return res
+
+
+def tlc_digest(out):
+    """The essential lines of a failed TLC run (error lines, violated monitor clauses, the path history)."""
+    errs = [l for l in out.split("\n") if l.startswith("Error:") or "is violated" in l][:8]
+    viol = re.findall(r"viol \|-> (\{[^}]*\})", out)
+    pth = re.findall(r"/\\ path = (<<.*?>>)\n(?:/\\|\n|$)", out, re.S)
+    return "\n".join(errs) + "\nviol: " + (viol[-1] if viol else "?") + "\npath: " + (re.sub(r"\s+", " ", pth[-1])[:1500] if pth else "?")
 
 
 def cex_path(tlc_out):
@@ -845,7 +889,7 @@ def fault_bases(tier):
     return bases
 
 
-def sweep_tasks(ctx, bases, kinds, labels, fault_mode, locklibs=("never", "modern"), seeds_per_base=1, cap=None):
+def sweep_tasks(ctx, bases, kinds, labels, fault_mode, locklibs=("never", "modern"), seeds_per_base=1, cap=None, detail_re=None):
     """Systematic single-fault sweep: for every base schedule, every process with one of `labels`, every step k."""
     rng = random.Random(ctx.seed)
     base_tasks = []
@@ -867,6 +911,8 @@ def sweep_tasks(ctx, bases, kinds, labels, fault_mode, locklibs=("never", "moder
                         continue
                     if kind == "faillock" and op != "lock_try":
                         continue
+                    if detail_re and not re.search(detail_re, detail):
+                        continue
                     points += 1
                     tasks.append(("fault", (scn, seed, {"kind": kind, "pid": int(pid), "k": k, "at": [op, detail]}, fm)))
     if cap and len(tasks) > cap:
@@ -877,6 +923,9 @@ def sweep_tasks(ctx, bases, kinds, labels, fault_mode, locklibs=("never", "moder
 
 def check_C11(ctx):
     q = ctx.tier == "quick"
+    fam = families.protocol_quick()[:3] if q else families.protocol_quick()
+    for fk in (["kill"], ["squeue"], ["sbatch"]):
+        ctx.impl_model("JadeImpl + " + fk[0] + " fault", fam, maxb=3, maxuser=5, faults=fk, maxfaults=1, max_replay=120 if q else 1500)
     bases = fault_bases(ctx.tier)
     subm = ("submit-jobs", "try-submit-jobs")
     # kills at every boundary operation (lock operation, external command) of every submitter round
@@ -899,6 +948,10 @@ def check_C11(ctx):
 
 def check_C12(ctx):
     q = ctx.tier == "quick"
+    fam = families.protocol_quick()[:3] if q else families.protocol_quick()
+    for fk in (["nodekill"], ["sbatch"]):
+        ctx.impl_model("JadeImpl + " + fk[0] + " fault", fam, maxb=3, maxuser=5, faults=fk, maxfaults=1 if q else 2,
+                       max_replay=120 if q else 1500)
     bases = fault_bases(ctx.tier)
     # every subset of batches failing at sbatch (base scenarios have <= 4 batches)
     import itertools
